@@ -1,5 +1,61 @@
-(* placeholder while the proofs are being written *)
-From Coq Require Import List Arith Bool.
-From SC Require Import C04.Model.
-Theorem C04_placeholder : with_capacity (A:=nat) 3 = mkHeap 3 0 false nil.
+(* C04 — nearest-neighbour search and k-NN estimators.  Property theorems only; statements are about
+   the executable model SC.C04.Model, which the correspondence check ties to
+   src/algorithm/sort/heap_select.rs, src/algorithm/neighbour/{linear_search,cover_tree}.rs and
+   src/neighbors/*.rs.  Distances live in any type with a total preorder (`preorder ltb leb`). *)
+From Coq Require Import List Arith Bool Permutation.
+From SC Require Import C04.Model C04.Proofs_Heap C04.Proofs_Linear.
+Import ListNotations.
+
+(* HeapSelection: after any non-empty add sequence `l` into a heap of capacity k >= 1 the array holds
+   min(k,|l|) elements, they are the smallest so far (l splits into the array and a rest that is
+   no smaller), and peek is a maximum of the array. *)
+Theorem C04_heap_keeps_k_smallest :
+  forall (A : Type) (ltb leb : A -> A -> bool) (d0 : A), preorder ltb leb ->
+  forall k l, 1 <= k -> l <> [] ->
+  let h := fold_left (hs_add ltb leb d0) l (with_capacity k) in
+  length (hs_get h) = Nat.min k (length l) /\
+  (exists rest, Permutation l (hs_get h ++ rest) /\
+                forall x y, In x (hs_get h) -> In y rest -> leb x y = true) /\
+  In (hs_peek ltb d0 h) (hs_get h) /\
+  (forall x, In x (hs_get h) -> leb x (hs_peek ltb d0 h) = true).
+Proof. intros A ltb leb d0 PO. exact (heap_keeps_k_smallest ltb leb d0 PO). Qed.
+
+(* LinearKNNSearch::find: for 1 <= k <= n (all distances below the +infinity sentinel) the result is
+   a k-nearest set: k entries, distinct true indices, true distances, nothing left out is closer. *)
+Theorem C04_linear_find_exact :
+  forall (D : Type) (ltb leb : D -> D -> bool) (dinf : D), preorder ltb leb ->
+  forall (dq : nat -> D) n k, (forall i, i < n -> ltb (dq i) dinf = true) -> 1 <= k <= n ->
+  exists res, linear_find ltb leb dinf dq n k = Some res /\ is_knn leb dq n k res.
+Proof. intros D ltb leb dinf PO. exact (linear_find_exact ltb leb dinf PO). Qed.
+
+(* LinearKNNSearch::find_radius returns exactly the points with distance <= r *)
+Theorem C04_linear_radius_exact :
+  forall (D : Type) (leb : D -> D -> bool) (dzero : D) (dq : nat -> D) n r res,
+  linear_find_radius leb dzero dq n r = Some res -> is_ball leb dq n r res.
+Proof. intros D leb dzero. exact (linear_radius_exact leb dzero). Qed.
+
+(* parameter errors of the exhaustive search: k = 0, k > n, r <= 0 *)
+Theorem C04_linear_param_errors :
+  forall (D : Type) (ltb leb : D -> D -> bool) (dinf dzero : D) (dq : nat -> D) n,
+  (forall k, linear_find ltb leb dinf dq n k = None <-> (k = 0 \/ n < k)) /\
+  (forall r, linear_find_radius leb dzero dq n r = None <-> leb r dzero = true).
+Proof.
+  intros. split; intros.
+  - apply linear_find_error.
+  - apply linear_radius_error.
+Qed.
+
+(* the hypotheses are satisfiable: nat with <, <= is a preorder; a concrete run *)
+Example C04_nat_preorder : preorder Nat.ltb Nat.leb.
+Proof.
+  split; intros.
+  - destruct (Nat.leb_spec a b); auto. right. apply Nat.leb_le. auto with arith.
+  - apply Nat.leb_le in H, H0. apply Nat.leb_le. eauto with arith.
+  - destruct (Nat.leb_spec b a), (Nat.ltb_spec a b); auto; exfalso; eapply Nat.lt_irrefl; eauto with arith.
+Qed.
+Example C04_linear_instance :
+  linear_find Nat.ltb Nat.leb 100 (fun i => nth i [7; 3; 9; 3; 5] 0) 5 3 = Some [(4, 5); (3, 3); (1, 3)].
+Proof. reflexivity. Qed.
+Example C04_heap_instance :
+  hs_get (fold_left (hs_add Nat.ltb Nat.leb 0) [5; 1; 4; 2; 8; 3] (with_capacity 3)) = [3; 2; 1].
 Proof. reflexivity. Qed.
